@@ -165,13 +165,16 @@ def _sf2(args):
         # its pool worker down without a result and without breaking the
         # barrier, and both the other stripes and the parent's get() would
         # wait for ever
-        import traceback
-        logging.warn(e)
         # the other stripes may be (or may come to be) waiting for this one at
         # the barrier: break it so that they fail too instead of waiting for
-        # ever, and the parent's get() can raise
+        # ever, and the parent's get() can raise.  Do this before anything
+        # else that could itself raise (logging.warn used to come first: it is
+        # deprecated, so with warnings turned into errors it raised and the
+        # barrier was never aborted)
         if barrier is not None:
             barrier.abort()
+        import traceback
+        logging.warning(e)
         raise Exception("".join(traceback.format_exception(*sys.exc_info())))
 
 
